@@ -1,14 +1,1031 @@
-"""C09 stub (being written)."""
+"""C09 -- analysis never aborts on valid input and returns finite droplets.
+
+(a) proofs: Properties/C09.v -- the call-site precondition theorems (collected from C02/C03/C04/C06/C12/C19 plus the
+    ones proved in Proofs/C09.v) over the models and the text generated from the current source
+(b) error-kind sweep over all public entry points of the real implementation (locate_droplets, locate_droplets_in_mask,
+    refine_droplet, get_phase_field / _get_phase_field / Emulsion.get_phasefield, polar_coordinates,
+    DropletTrackList.from_emulsion_time_course, DropletTracker / LengthScaleTracker.handle), biased to degenerate input
+(c) the observed outcome kinds compared with the model guards INSIDE Coq (modes guard, dimension guard, tracking)
+(d) evidence
+
+Property oracle (from the property text): only documented invalid requests raise (perturbation modes in one dimension;
+droplet / grid dimension mismatch) and they raise the documented error (a ValueError raised by the package's own guard);
+every other call completes and every parameter of every returned droplet is finite (an unset interface width excepted),
+rendered fields are finite.
+"""
 from __future__ import annotations
+
+import itertools
+import json
+import logging
+import math
+import random
+import traceback
+import warnings
+
+import numpy as np
 
 import vlib
 
+warnings.simplefilter("ignore")
+logging.disable(logging.WARNING)
 
-def check(ctx):
-    vlib.prove(ctx, ["Proofs/C09.vo"], gens=["Gen_analysis", "Gen_shapes", "Gen_refine", "Gen_refine_R", "Gen_spherical",
-                                             "Gen_spherical_index", "Gen_droplet_basic"])
-    return vlib.finish(ctx, "", [], [], "stub")
+TRUSTED = [
+    "Coq 8.16.1 kernel + vm_compute",
+    "translators harness/gen_analysis.py (modes guard, class tree), gen_shapes.py (dimension guard), gen_refine.py (start vector, "
+    "bounds), gen.py (sphere conversions) -- fail closed; Gen_shapes / Gen_refine fall back to the golden text",
+    "oracles with stated specifications: scipy.ndimage.label (LabelSpec / wf_img, checked per sample by C02), "
+    "scipy.optimize.least_squares (lsq_spec and its modelled preconditions, checked per call by C04), scipy cdist / numpy "
+    "argmin (preconditions modelled as error values in Model/Tracking.v)",
+    "error-kind sweep harness (this file): exception -> (type, innermost droplets function) through the traceback; "
+    "refine_droplet observed through the module attribute droplets.image_analysis.refine_droplet",
+    "py-pde 0.58.0 grids (construction, transform, difference_vector, normalize_point) are exercised, not modelled, here",
+]
+ASSUME = [
+    "PARTIAL: only exceptions arising at modelled call sites are covered by theorems (division by cell counts / merged "
+    "volumes, the angle quotient of polar_coordinates, the spanning signal of the cylindrical locator, cdist / argmin / "
+    "indices of the tracker, the start vector and bounds of least_squares, the two guards); every other source of an "
+    "exception (numpy / scipy / py-pde internals, numba, the harmonics, the solver's iterations) is covered by the sweep only",
+    "valid input = finite field on a grid py-pde constructs; documented option values; droplets with radius >= 0, width None or "
+    ">= 0, amplitudes in [-1, 1], on the symmetry centre / axis of symmetric grids; strictly increasing times",
+    "documented error = ValueError raised by a function of the droplets package itself (not by numpy / scipy / py-pde)",
+    "finite = np.isfinite of every field of droplet.data, `interface_width` excepted when droplet.interface_width is None",
+    "inputs matched by a `finding` entry of known_findings.json (generic match on call / grid / failure / condition / class) "
+    "are reported as KNOWN-FINDING, not as violations",
+]
+RULE = ("one evaluation = one call of a public entry point; streams: locate_droplets without / with refinement, "
+        "locate_droplets_in_mask, refine_droplet on located candidates, rendering (5 classes, all compatible families, "
+        "emulsions, dimension mismatch), polar_coordinates, tracking (both methods, +-grid, 3 cut-offs), tracker handles; "
+        "grids: Cartesian 1-3 d, 1..6 cells per axis, every periodicity mask, isotropic / anisotropic spacing, polar, spherical, "
+        "cylindrical +- periodic_z (1..6 cells); fields: constants 0 / 1 / 0.7, single bright cell, all ones, binary noise, "
+        "smooth noise, off-axis-only blobs, rendered droplets, each also affinely rescaled (x1000, -5); options: the full "
+        "documented value sets (threshold 7, minimal_radius 4, interface_width 3, modes 5, refine off + 3 refine_args); "
+        "non-trivial = at least one droplet returned / a non-constant rendering / an exception; distinct by the full call")
+
+# everything Properties/C09.v imports (it re-exports theorems of the other properties' proof files)
+DEPS = ["Proofs/C09.vo", "Proofs/C02.vo", "Proofs/LocateCart.vo", "Proofs/C03.vo", "Proofs/Render.vo", "Proofs/Profile.vo",
+        "Proofs/C04.vo", "Proofs/Refine.vo", "Proofs/RefineVec.vo", "Proofs/C06.vo", "Proofs/C12.vo", "Proofs/C19.vo",
+        "Model/Totality.vo"]
+GENS = ["Gen_analysis", "Gen_shapes", "Gen_refine", "Gen_refine_R", "Gen_spherical", "Gen_spherical_index",
+        "Gen_droplet_basic"]
+CLASSES = ["SphericalDroplet", "DiffuseDroplet", "PerturbedDroplet2D", "PerturbedDroplet3D",
+           "PerturbedDroplet3DAxisSym"]
+THRESHOLDS = [0.5, "extrema", "auto", "mean", "otsu", "below", "above"]
+MIN_RADII = ["-inf", 0, 0.5, 1e9]
+WIDTHS = [None, 0, 0.5]
+MODES = [0, 1, 2, 3, 8]
+REFINE_ARGS = [{}, {"vmin": None, "vmax": None}, {"vmin": None, "vmax": None, "adjust_values": True}]
 
 
-def replay(path):
-    return 0
+# =========================================================================================
+# specs -> objects (JSON-able, so that every call can be replayed)
+# =========================================================================================
+def make_grid(gs: dict):
+    from pde import CartesianGrid, CylindricalSymGrid, PolarSymGrid, SphericalSymGrid
+    fam = gs["family"]
+    if fam == "cartesian":
+        return CartesianGrid([tuple(b) for b in gs["bounds"]], list(gs["shape"]), periodic=list(gs["periodic"]))
+    if fam == "polar":
+        return PolarSymGrid(tuple(gs["radius"]), gs["shape"])
+    if fam == "spherical":
+        return SphericalSymGrid(tuple(gs["radius"]), gs["shape"])
+    if fam == "cylindrical":
+        return CylindricalSymGrid(gs["radius"], tuple(gs["bounds_z"]), list(gs["shape"]), periodic_z=gs["periodic_z"])
+    raise ValueError(fam)
+
+
+def grid_dim(gs: dict) -> int:
+    if gs["family"] == "cartesian":
+        return len(gs["shape"])
+    return {"polar": 2, "spherical": 3, "cylindrical": 3}[gs["family"]]
+
+
+def grid_shape(gs: dict) -> tuple:
+    s = gs["shape"]
+    return tuple(s) if isinstance(s, (list, tuple)) else (int(s),)
+
+
+def grid_name(gs: dict) -> str:
+    """as worded in known_findings.json"""
+    if gs["family"] == "cartesian":
+        return f"CartesianGrid({len(gs['shape'])}d)"
+    if gs["family"] == "cylindrical":
+        return f"CylindricalSymGrid(periodic_z={bool(gs['periodic_z'])})"
+    return {"polar": "PolarSymGrid", "spherical": "SphericalSymGrid"}[gs["family"]]
+
+
+def family_name(gs: dict) -> str:
+    if gs["family"] == "cartesian":
+        return f"cart{len(gs['shape'])}"
+    if gs["family"] == "cylindrical":
+        return "cylindrical-periodic" if gs["periodic_z"] else "cylindrical"
+    return gs["family"]
+
+
+def make_droplet(ds: dict):
+    import droplets.droplets as dd
+    cls = getattr(dd, ds["cls"])
+    pos = np.array(ds["position"], dtype=float)
+    if ds["cls"] == "SphericalDroplet":
+        return cls(pos, ds["radius"])
+    if ds["cls"] == "DiffuseDroplet":
+        return cls(pos, ds["radius"], ds.get("width"))
+    amps = ds.get("amplitudes")
+    return cls(pos, ds["radius"], ds.get("width"), list(amps) if amps else None)
+
+
+def droplet_spec(d) -> dict:
+    ds = {"cls": type(d).__name__, "position": [float(x) for x in d.position], "radius": float(d.radius)}
+    if hasattr(d, "interface_width"):
+        w = d.interface_width
+        ds["width"] = None if w is None else float(w)
+    if hasattr(d, "amplitudes"):
+        ds["amplitudes"] = [float(a) for a in d.amplitudes]
+    return ds
+
+
+def make_field_data(gs: dict, fs: dict) -> np.ndarray:
+    """the field recipe -> array (deterministic in the recipe)"""
+    from scipy import ndimage
+    shape = grid_shape(gs)
+    if "bits" in fs:   # exhaustive mask stream: cell i is set iff bit i is set
+        n = int(np.prod(shape))
+        return np.array([(fs["bits"] >> i) & 1 for i in range(n)], float).reshape(shape)
+    kind = fs["kind"]
+    nrng = np.random.default_rng(fs.get("seed", 0))
+    if kind == "const":
+        data = np.full(shape, float(fs["value"]))
+    elif kind == "ones":
+        data = np.ones(shape)
+    elif kind == "single":
+        data = np.zeros(shape)
+        data[np.unravel_index(fs["cell"] % data.size, shape)] = 1.0
+    elif kind == "bnoise":
+        data = (nrng.random(shape) < fs["p"]).astype(float)
+    elif kind == "snoise":
+        x = ndimage.gaussian_filter(nrng.standard_normal(shape), sigma=fs["sigma"], mode="wrap")
+        span = float(x.max() - x.min())
+        data = (x - x.min()) / span if span > 0 else np.full(shape, 0.5)
+    elif kind == "offaxis":   # cylindrical grids: objects away from the symmetry axis only
+        data = np.zeros(shape)
+        if shape[0] > 1:
+            data[1:, :] = (nrng.random((shape[0] - 1, shape[1])) < fs["p"]).astype(float)
+    elif kind == "droplets":
+        from droplets import Emulsion
+        grid = make_grid(gs)
+        drops = [make_droplet(d) for d in fs["droplets"]]
+        data = Emulsion(drops).get_phasefield(grid).data if drops else np.zeros(shape)
+    else:
+        raise ValueError(kind)
+    return fs.get("a", 1.0) * np.asarray(data, float) + fs.get("b", 0.0)
+
+
+# =========================================================================================
+# outcome of one call
+# =========================================================================================
+def exc_record(e: BaseException) -> dict:
+    tb = traceback.extract_tb(e.__traceback__)
+    frames = [(f.filename.replace("\\", "/"), f.name) for f in tb]
+    pkg = [name for fn, name in frames if "/droplets/" in fn and "/harness/" not in fn]
+    own = bool(frames) and "/droplets/" in frames[-1][0]
+    msg = str(e)
+    tags = ["raises:" + type(e).__name__, type(e).__name__]
+    if "strictly less than each upper bound" in msg or "lower bound must be strictly less" in msg:
+        tags.insert(0, "raises:BoundsNotStrict")
+    if "zero-size array" in msg:
+        tags.insert(0, "raises:EmptyRegion")
+    if "infeasible" in msg:
+        tags.insert(0, "raises:Infeasible")
+    return {"kind": type(e).__name__, "msg": msg[:200], "chain": pkg, "site": pkg[-1] if pkg else None,
+            "own_guard": own, "failures": tags}
+
+
+def finite_failures(drops) -> list[str]:
+    out = []
+    for i, d in enumerate(drops):
+        for name in d.data.dtype.names:
+            if name == "interface_width" and d.interface_width is None:
+                continue
+            v = np.asarray(d.data[name], dtype=float)
+            if not np.all(np.isfinite(v)):
+                out.append(f"droplet {i} ({type(d).__name__}): {name} = {v.tolist()!r}")
+        try:
+            arr = np.asarray(d._data_array, dtype=float)
+        except Exception as e:  # noqa
+            out.append(f"droplet {i}: _data_array raised {type(e).__name__}: {e}")
+            continue
+        bad = ~np.isfinite(arr)
+        if bad.sum() > (1 if (hasattr(d, "interface_width") and d.interface_width is None) else 0):
+            out.append(f"droplet {i} ({type(d).__name__}): non-finite entries in _data_array {arr.tolist()!r}")
+    return out[:3]
+
+
+class RefineProbe:
+    """observes refine_droplet as called through droplets.image_analysis (module attribute); on an exception records
+    the candidate and the conditions (as worded in known_findings.json) that hold for the call"""
+
+    def __enter__(self):
+        import droplets.image_analysis as ia
+        self.ia, self.orig = ia, ia.refine_droplet
+        self.fail = None
+        self.calls = 0
+        probe = self
+
+        def wrapper(phase_field, droplet, **kw):
+            snap = droplet.copy()
+            probe.calls += 1
+            try:
+                return probe.orig(phase_field, droplet, **kw)
+            except Exception:
+                if probe.fail is None:
+                    probe.fail = {"candidate": droplet_spec(snap), "refine_args": {k: v for k, v in kw.items()},
+                                  "conds": refine_conditions(phase_field, snap, kw)}
+                raise
+
+        ia.refine_droplet = wrapper
+        return self
+
+    def __exit__(self, *a):
+        self.ia.refine_droplet = self.orig
+
+
+def refine_conditions(phase_field, cand, kw) -> list[str]:
+    from scipy import ndimage
+    from droplets import DiffuseDroplet
+    from pde import CylindricalSymGrid
+    conds = []
+    try:
+        grid = phase_field.grid
+        d = cand.copy() if isinstance(cand, DiffuseDroplet) else DiffuseDroplet.from_droplet(cand)
+        if d.interface_width is None:
+            d.interface_width = grid.typical_discretization
+        mask = d._get_phase_field(grid, dtype=bool)
+        region = ndimage.binary_dilation(mask, iterations=1 + int(2 * d.interface_width))
+        vmin, vmax = kw.get("vmin", 0.0), kw.get("vmax", 1.0)
+        adjust = bool(kw.get("adjust_values", False))
+        auto = vmin is None or vmax is None
+        if not region.any():
+            conds.append("fit region empty")
+            if auto:
+                conds.append("fit region empty and vmin or vmax None")
+        else:
+            dm = phase_field.data[region]
+            lo = float(dm.min()) if vmin is None else float(vmin)
+            hi = float(dm.max()) if vmax is None else float(vmax)
+            if adjust and lo >= hi:
+                conds.append("adjust_values and vmin_eff >= vmax_eff")
+        if isinstance(grid, CylindricalSymGrid) and grid.periodic[1]:
+            z0, z1 = grid.axes_bounds[1]
+            if not (z0 <= float(cand.position[2]) < z1):
+                conds.append("candidate outside [z0,z1)")
+        if auto and not adjust:
+            conds.append("vmin or vmax None and adjust_values False")
+    except Exception as e:  # noqa
+        conds.append(f"conditions not computable ({type(e).__name__}: {e})")
+    return conds
+
+
+def resolve_threshold(thr, data):
+    if thr == "below":
+        return float(data.min()) - 1.0
+    if thr == "above":
+        return float(data.max()) + 1.0
+    return thr
+
+
+def locate_kwargs(opt: dict, data) -> dict:
+    kw = {"threshold": resolve_threshold(opt["threshold"], data),
+          "minimal_radius": -np.inf if opt["minimal_radius"] == "-inf" else opt["minimal_radius"],
+          "modes": opt["modes"], "interface_width": opt["interface_width"], "refine": opt["refine"]}
+    if opt["refine"]:
+        kw["refine_args"] = dict(REFINE_ARGS[opt["refine_args"]])
+    return kw
+
+
+def run_case(case: dict) -> dict:
+    """runs one call; returns {"kind": "ok" | exception type, ...}; never raises"""
+    try:
+        return _run_case(case)
+    except Exception as e:  # the harness itself failed: reported as a crash of the check
+        return {"kind": "HARNESS", "msg": f"{type(e).__name__}: {e}", "trace": traceback.format_exc()[-600:]}
+
+
+def _run_case(case: dict) -> dict:
+    from pde import ScalarField
+    entry = case["entry"]
+    if entry in ("locate_droplets", "locate_droplets_in_mask", "refine_droplet", "DropletTracker.handle",
+                 "LengthScaleTracker.handle"):
+        grid = make_grid(case["grid"])
+        data = make_field_data(case["grid"], case["field"])
+        if not np.all(np.isfinite(data)):
+            raise RuntimeError("generated field is not finite")
+    if entry == "locate_droplets":
+        from droplets.image_analysis import locate_droplets
+        kw = locate_kwargs(case["options"], data)
+        with RefineProbe() as probe:
+            try:
+                em = locate_droplets(ScalarField(grid, data), **kw)
+            except Exception as e:  # noqa
+                return {**exc_record(e), "refine_fail": probe.fail}
+        return {"kind": "ok", "n": len(em), "nonfinite": finite_failures(em), "nrefine": probe.calls,
+                "classes": sorted({type(d).__name__ for d in em})}
+    if entry == "locate_droplets_in_mask":
+        from droplets.image_analysis import locate_droplets_in_mask
+        try:
+            em = locate_droplets_in_mask(ScalarField(grid, data > 0.5, dtype=bool))
+        except Exception as e:  # noqa
+            return exc_record(e)
+        return {"kind": "ok", "n": len(em), "nonfinite": finite_failures(em)}
+    if entry == "refine_droplet":
+        import droplets.image_analysis as ia
+        field = ScalarField(grid, data)
+        try:
+            cands = list(ia.locate_droplets(field, threshold=resolve_threshold(case["threshold"], data), minimal_radius=-np.inf))
+        except Exception as e:  # noqa
+            return {**exc_record(e), "stage": "locating the candidates"}
+        out = []
+        with RefineProbe() as probe:
+            for c in cands[:3]:
+                try:
+                    out.append(ia.refine_droplet(field, c, **REFINE_ARGS[case["refine_args"]]))
+                except Exception as e:  # noqa
+                    return {**exc_record(e), "refine_fail": probe.fail}
+        return {"kind": "ok", "n": len(out), "nonfinite": finite_failures(out), "nrefine": probe.calls}
+    if entry == "DropletTracker.handle":
+        from droplets.trackers import DropletTracker
+        opt = case["options"]
+        tr = DropletTracker(1, threshold=resolve_threshold(opt["threshold"], data),
+                            minimal_radius=-np.inf if opt["minimal_radius"] == "-inf" else opt["minimal_radius"],
+                            refine=opt["refine"], refine_args=dict(REFINE_ARGS[opt["refine_args"]]) if opt["refine"] else None,
+                            perturbation_modes=opt["modes"])
+        with RefineProbe() as probe:
+            try:
+                for k in range(2):
+                    tr.handle(ScalarField(grid, data), float(k))
+            except Exception as e:  # noqa
+                return {**exc_record(e), "refine_fail": probe.fail}
+        drops = [d for em in tr.data for d in em]
+        return {"kind": "ok", "n": len(drops), "nonfinite": finite_failures(drops), "frames": len(tr.data)}
+    if entry == "LengthScaleTracker.handle":
+        from droplets.trackers import LengthScaleTracker
+        tr = LengthScaleTracker(1, method=case["method"])
+        try:
+            tr.handle(ScalarField(grid, data), 0.0)
+        except Exception as e:  # noqa
+            return exc_record(e)
+        return {"kind": "ok", "n": len(tr.length_scales), "nonfinite": [], "value": repr(tr.length_scales[0])}
+    if entry in ("get_phase_field", "_get_phase_field", "Emulsion.get_phasefield"):
+        grid = make_grid(case["grid"])
+        try:
+            if entry == "Emulsion.get_phasefield":
+                from droplets import Emulsion
+                f = Emulsion([make_droplet(d) for d in case["droplets"]]).get_phasefield(grid).data
+            else:
+                d = make_droplet(case["droplet"])
+                if entry == "get_phase_field":
+                    f = d.get_phase_field(grid, vmin=case.get("vmin", 0.0), vmax=case.get("vmax", 1.0)).data
+                else:
+                    f = d._get_phase_field(grid, dtype=bool if case.get("bool") else float)
+        except Exception as e:  # noqa
+            return exc_record(e)
+        f = np.asarray(f, dtype=float)
+        bad = [] if np.all(np.isfinite(f)) else [f"{int((~np.isfinite(f)).sum())} non-finite cell(s) of {f.size}"]
+        return {"kind": "ok", "n": int(f.size), "nonfinite": bad, "nonconstant": bool(f.size and f.min() != f.max())}
+    if entry == "polar_coordinates":
+        from droplets.tools.spherical import polar_coordinates
+        grid = make_grid(case["grid"])
+        try:
+            res = polar_coordinates(grid, origin=np.array(case["origin"], float), ret_angle=case["ret_angle"])
+        except Exception as e:  # noqa
+            return exc_record(e)
+        arrs = res if isinstance(res, tuple) else (res,)
+        bad = [f"output {i}: non-finite values" for i, a in enumerate(arrs) if not np.all(np.isfinite(a))]
+        return {"kind": "ok", "n": len(arrs), "nonfinite": bad, "nonconstant": True}
+    if entry == "from_emulsion_time_course":
+        from droplets import Emulsion
+        from droplets.droplet_tracks import DropletTrackList
+        from droplets.emulsions import EmulsionTimeCourse
+        etc = EmulsionTimeCourse()
+        for t, frame in zip(case["times"], case["frames"]):
+            etc.append(Emulsion([make_droplet(d) for d in frame]), t)
+        kw = {"method": case["method"]}
+        if case["grid"] is not None:
+            kw["grid"] = make_grid(case["grid"])
+        if case["method"] == "distance" and case["max_dist"] is not None:
+            kw["max_dist"] = case["max_dist"]
+        try:
+            tracks = DropletTrackList.from_emulsion_time_course(etc, **kw)
+        except Exception as e:  # noqa
+            return exc_record(e)
+        drops = [d for tr in tracks for d in tr.droplets]
+        total = sum(len(f) for f in case["frames"])
+        bad = finite_failures(drops)
+        if len(drops) != total:
+            bad.append(f"{len(drops)} droplets in the tracks, {total} in the time course")
+        return {"kind": "ok", "n": len(tracks), "nonfinite": bad}
+    raise ValueError(entry)
+
+
+def expected_error(case: dict) -> str | None:
+    """the documented invalid requests (property text)"""
+    entry = case["entry"]
+    if entry in ("locate_droplets", "DropletTracker.handle"):
+        if case["options"]["modes"] > 0 and grid_dim(case["grid"]) == 1:
+            return "modes in 1-d"
+    if entry in ("get_phase_field", "_get_phase_field"):
+        if len(case["droplet"]["position"]) != grid_dim(case["grid"]):
+            return "dimension mismatch"
+    if entry == "Emulsion.get_phasefield":
+        if any(len(d["position"]) != grid_dim(case["grid"]) for d in case["droplets"]):
+            return "dimension mismatch"
+    return None
+
+
+def judge(case: dict, res: dict) -> tuple[str, str | None]:
+    """-> (outcome class, failure description or None).  outcome classes: ok | documented | abort | nonfinite |
+    undocumented-accept | wrong-error | harness"""
+    want = expected_error(case)
+    if res["kind"] == "HARNESS":
+        return "harness", "check harness failed: " + res["msg"]
+    if want:
+        if res["kind"] == "ok":
+            return "undocumented-accept", f"documented invalid request ({want}) did not raise"
+        if res["kind"] != "ValueError" or not res.get("own_guard"):
+            return "wrong-error", (f"documented invalid request ({want}) raised {res['kind']} in {res.get('site')}: "
+                                   f"{res.get('msg')} -- documented: ValueError from the package's guard")
+        return "documented", None
+    if res["kind"] != "ok":
+        return "abort", f"{case['entry']} raised {res['kind']} (in {res.get('site')}): {res.get('msg')}"
+    if res.get("nonfinite"):
+        return "nonfinite", f"{case['entry']} returned non-finite data: {res['nonfinite'][0]}"
+    return "ok", None
+
+
+# =========================================================================================
+# known findings (generic match on the `match` dict)
+# =========================================================================================
+def _aslist(x):
+    return x if isinstance(x, list) else [x]
+
+
+def failure_attrs(case: dict, res: dict, cls: str) -> dict:
+    rf = res.get("refine_fail") or {}
+    chain = list(res.get("chain") or [case["entry"]])
+    if case["entry"] not in chain:
+        chain.insert(0, case["entry"])
+    gs = case.get("grid")
+    failures = list(res.get("failures") or [])
+    if cls == "nonfinite":
+        failures.append("non-finite result")
+    return {"calls": chain, "grid": grid_name(gs) if gs else "none", "failures": failures,
+            "conds": list(rf.get("conds") or []), "class": (rf.get("candidate") or case.get("droplet") or {}).get("cls"),
+            "method": case.get("method")}
+
+
+def match_known(attrs: dict, entries=None):
+    for e in (entries if entries is not None else vlib.load_known()):
+        if e.get("kind") != "finding" or "match" not in e:
+            continue
+        m = e["match"]
+        ok = True
+        for key, want in m.items():
+            wants = _aslist(want)
+            if key == "call":
+                ok = any(w in attrs["calls"] or w.split(".")[-1] in attrs["calls"] for w in wants)
+            elif key == "grid":
+                ok = any(attrs["grid"] == w or attrs["grid"].startswith(w + "(") for w in wants)
+            elif key == "failure":
+                ok = any(w in attrs["failures"] for w in wants)
+            elif key == "condition":
+                ok = any(w in attrs["conds"] for w in wants)
+            else:
+                ok = attrs.get(key) in wants
+            if not ok:
+                break
+        if ok:
+            return e
+    return None
+
+
+# =========================================================================================
+# generators
+# =========================================================================================
+def gen_cart(rng, dim, max_n=6, periodic=None):
+    shape = [min(rng.choice([1, 1, 2, 2, 3, 3, 4, 5, 6]), max_n) for _ in range(dim)]
+    mode = rng.random()
+    bounds = []
+    for n in shape:
+        if mode < 0.6:
+            h, lo = 1.0, 0.0
+        elif mode < 0.8:
+            h, lo = rng.choice([0.5, 2.0]), rng.choice([0.0, -1.5])
+        else:   # anisotropic
+            h, lo = rng.choice([0.25, 0.5, 1.0, 2.0]), rng.choice([0.0, -1.5, 3.0])
+        bounds.append([lo, lo + n * h])
+    if periodic is None:
+        periodic = [rng.random() < 0.5 for _ in range(dim)]
+    return {"family": "cartesian", "bounds": bounds, "shape": shape, "periodic": list(periodic)}
+
+
+def gen_grid(rng, family: str, max3=5):
+    if family.startswith("cart"):
+        d = int(family[4])
+        return gen_cart(rng, d, max_n=6 if d < 3 else max3)
+    if family in ("polar", "spherical"):
+        n = rng.choice([1, 2, 3, 4, 5, 6])
+        r0 = rng.choice([0.0, 0.0, 0.0, 0.5])
+        return {"family": family, "radius": [r0, r0 + n * rng.choice([0.5, 1.0, 1.0, 2.0])], "shape": n}
+    nr, nz = rng.choice([1, 2, 3, 4, 5]), rng.choice([1, 2, 3, 4, 5, 6])
+    hz = rng.choice([0.5, 1.0, 1.0, 2.0])
+    z0 = rng.choice([0.0, 0.0, -1.5, 2.0])
+    return {"family": "cylindrical", "radius": nr * rng.choice([0.5, 1.0, 1.0]), "bounds_z": [z0, z0 + nz * hz],
+            "shape": [nr, nz], "periodic_z": rng.random() < 0.5}
+
+
+FAMILIES = ["cart1", "cart2", "cart2", "cart3", "polar", "spherical", "cylindrical", "cylindrical"]
+
+
+def all_cart_grids():
+    """every periodicity mask on a few fixed tiny shapes (incl. one cell per axis)"""
+    out = []
+    for shape in [(1,), (2,), (4,), (1, 1), (1, 3), (3, 2), (4, 4), (1, 1, 1), (2, 1, 3), (3, 3, 2)]:
+        for per in itertools.product([False, True], repeat=len(shape)):
+            out.append({"family": "cartesian", "bounds": [[0.0, float(n)] for n in shape], "shape": list(shape),
+                        "periodic": list(per)})
+    return out
+
+
+def inside_droplets(rng, gs, n):
+    """a few valid diffuse droplets inside the grid (on the symmetry locus of symmetric grids)"""
+    out = []
+    fam = gs["family"]
+    for _ in range(n):
+        if fam == "cartesian":
+            pos = [rng.uniform(b[0], b[1]) for b in gs["bounds"]]
+            ext = min(b[1] - b[0] for b in gs["bounds"])
+        elif fam in ("polar", "spherical"):
+            pos = [0.0] * grid_dim(gs)
+            ext = gs["radius"][1]
+        else:
+            pos = [0.0, 0.0, rng.uniform(*gs["bounds_z"])]
+            ext = min(gs["radius"], gs["bounds_z"][1] - gs["bounds_z"][0])
+        out.append({"cls": "DiffuseDroplet", "position": pos, "radius": rng.uniform(0.15, 0.6) * max(ext, 0.5),
+                    "width": rng.choice([None, 0.0, 0.5, 1.0])})
+    return out
+
+
+def gen_field(rng, gs):
+    fam = gs["family"]
+    kinds = ["const", "const", "single", "single", "ones", "bnoise", "bnoise", "snoise", "snoise", "droplets"]
+    if fam == "cylindrical":
+        kinds += ["offaxis", "offaxis", "offaxis"]
+    kind = rng.choice(kinds)
+    fs = {"kind": kind, "seed": rng.randrange(1 << 30)}
+    if kind == "const":
+        fs["value"] = rng.choice([0.0, 1.0, 0.7])
+    elif kind == "single":
+        fs["cell"] = rng.randrange(1 << 16)
+    elif kind == "bnoise":
+        fs["p"] = rng.choice([0.1, 0.3, 0.5, 0.7, 0.9])
+    elif kind == "snoise":
+        fs["sigma"] = rng.choice([0.5, 1.0, 2.0])
+    elif kind == "offaxis":
+        fs["p"] = rng.choice([0.3, 0.6, 1.0])
+    elif kind == "droplets":
+        fs["droplets"] = inside_droplets(rng, gs, rng.choice([1, 1, 2, 3]))
+    if rng.random() < 0.25:
+        fs["a"], fs["b"] = 1000.0, -5.0
+    return fs
+
+
+def gen_options(rng, refine: bool):
+    return {"threshold": rng.choice(THRESHOLDS), "minimal_radius": rng.choice(MIN_RADII),
+            "interface_width": rng.choice(WIDTHS), "modes": rng.choice(MODES), "refine": refine,
+            "refine_args": rng.randrange(len(REFINE_ARGS)) if refine else 0}
+
+
+def field_kind(fs: dict) -> str:
+    k = fs["kind"] + (f"={fs['value']}" if fs["kind"] == "const" else "")
+    return k + (" rescaled" if "a" in fs else "")
+
+
+def gen_locate_cases(ctx, rng):
+    cases = []
+    fixed = all_cart_grids()
+    # (1) every fixed tiny grid x degenerate fields x every threshold rule / modes value (no refinement)
+    for gs in fixed:
+        for fs in ({"kind": "const", "value": 0.7}, {"kind": "single", "cell": 0}, {"kind": "ones"},
+                   {"kind": "bnoise", "p": 0.5, "seed": 7}):
+            for thr in THRESHOLDS:
+                opt = gen_options(rng, False)
+                opt["threshold"] = thr
+                cases.append({"entry": "locate_droplets", "grid": gs, "field": dict(fs), "options": opt})
+    # (2) random stream without refinement
+    for _ in range(ctx.scale(10000, 60000)):
+        gs = gen_grid(rng, rng.choice(FAMILIES), max3=6)
+        cases.append({"entry": "locate_droplets", "grid": gs, "field": gen_field(rng, gs), "options": gen_options(rng, False)})
+    # (3) with refinement (3-d grids <= 5 cells per axis)
+    for _ in range(ctx.scale(3000, 20000)):
+        gs = gen_grid(rng, rng.choice(FAMILIES), max3=ctx.scale(4, 5))
+        opt = gen_options(rng, True)
+        if grid_dim(gs) == 3 and opt["modes"] == 8 and rng.random() < ctx.scale(80, 30) / 100:
+            opt["modes"] = rng.choice([0, 1, 2, 3])   # the slowest fits: thinned
+        cases.append({"entry": "locate_droplets", "grid": gs, "field": gen_field(rng, gs), "options": opt})
+    # (4) every option value at least once with refinement on one benign field per family
+    for fam in ["cart1", "cart2", "cart3", "polar", "spherical", "cylindrical"]:
+        gs = gen_grid(random.Random(5), fam, max3=4)
+        if fam.startswith("cart"):
+            gs = {"family": "cartesian", "bounds": [[0.0, 4.0]] * int(fam[4]), "shape": [4] * int(fam[4]),
+                  "periodic": [True] * int(fam[4])}
+        fs = {"kind": "droplets", "droplets": inside_droplets(random.Random(11), gs, 1)}
+        for ra in range(len(REFINE_ARGS)):
+            for modes in MODES:
+                if modes == 8 and grid_dim(gs) == 3 and ctx.quick:
+                    continue
+                cases.append({"entry": "locate_droplets", "grid": gs, "field": fs,
+                              "options": {"threshold": "extrema", "minimal_radius": 0, "interface_width": rng.choice(WIDTHS),
+                                          "modes": modes, "refine": True, "refine_args": ra}})
+    return cases
+
+
+def gen_mask_cases(ctx, rng):
+    cases = []
+    for gs in all_cart_grids():
+        n = int(np.prod(gs["shape"]))
+        if n <= 6:
+            for bits in range(1 << n):
+                cases.append({"entry": "locate_droplets_in_mask", "grid": gs,
+                              "field": {"kind": "bits", "bits": bits}})
+    for _ in range(ctx.scale(5000, 40000)):
+        gs = gen_grid(rng, rng.choice(FAMILIES), max3=6)
+        fs = gen_field(rng, gs)
+        fs.pop("a", None), fs.pop("b", None)
+        cases.append({"entry": "locate_droplets_in_mask", "grid": gs, "field": fs})
+    return cases
+
+
+def gen_refine_cases(ctx, rng):
+    cases = []
+    for _ in range(ctx.scale(1000, 8000)):
+        gs = gen_grid(rng, rng.choice(FAMILIES), max3=ctx.scale(4, 5))
+        cases.append({"entry": "refine_droplet", "grid": gs, "field": gen_field(rng, gs),
+                      "threshold": rng.choice(["extrema", 0.5, "mean"]), "refine_args": rng.randrange(len(REFINE_ARGS))})
+    return cases
+
+
+def gen_valid_droplet(rng, cls, gs):
+    fam = gs["family"]
+    dim = grid_dim(gs)
+    if fam == "cartesian":
+        pos = []
+        for (lo, hi), n in zip(gs["bounds"], gs["shape"]):
+            h = (hi - lo) / n
+            m = rng.random()
+            if m < 0.4:
+                x = lo + (rng.randrange(n) + 0.5) * h        # exactly on a cell centre
+            elif m < 0.55:
+                x = lo + rng.randrange(n + 1) * h            # on a cell boundary
+            elif m < 0.8:
+                x = rng.uniform(lo, hi)
+            else:
+                x = rng.choice([lo - 2.5 * (hi - lo), hi + 1.25 * (hi - lo), lo - h, hi + 7.0])   # outside the box
+            pos.append(x)
+        if cls == "PerturbedDroplet3DAxisSym":
+            pos[0] = pos[1] = 0.0
+        ext = max(b[1] - b[0] for b in gs["bounds"])
+    elif fam in ("polar", "spherical"):
+        pos, ext = [0.0] * dim, gs["radius"][1]
+    else:
+        z0, z1 = gs["bounds_z"]
+        nz = gs["shape"][1]
+        z = rng.choice([z0 + (rng.randrange(nz) + 0.5) * (z1 - z0) / nz, rng.uniform(z0, z1), z0 - 1.5 * (z1 - z0), z1 + 3.0])
+        pos, ext = [0.0, 0.0, z], max(gs["radius"], z1 - z0)
+    ds = {"cls": cls, "position": pos,
+          "radius": rng.choice([0.0, 2.0 ** -6, 0.5, ext / 2, rng.uniform(0.05, ext), 2 * ext, 1e6])}
+    if cls != "SphericalDroplet":
+        ds["width"] = rng.choice([None, 0.0, 2.0 ** -6, 0.5, 1.0, 4.0])
+    if cls.startswith("Perturbed"):
+        n = rng.choice({"PerturbedDroplet2D": [0, 1, 2, 4, 6], "PerturbedDroplet3D": [0, 3, 8, 15],
+                        "PerturbedDroplet3DAxisSym": [0, 1, 2, 3, 5]}[cls])
+        m = rng.random()
+        ds["amplitudes"] = [(0.0 if m < 0.15 else rng.choice([-1.0, 1.0, 0.0, 0.5, rng.uniform(-1, 1), rng.uniform(-0.2, 0.2)]))
+                            for _ in range(n)]
+    return ds
+
+
+def compatible_family(rng, cls):
+    if cls in ("SphericalDroplet", "DiffuseDroplet"):
+        return rng.choice(["cart1", "cart2", "cart3", "polar", "spherical", "cylindrical"])
+    if cls == "PerturbedDroplet2D":
+        return rng.choice(["cart2", "cart2", "polar"])
+    if cls == "PerturbedDroplet3D":
+        return rng.choice(["cart3", "cart3", "spherical", "cylindrical"])
+    return rng.choice(["cart3", "cylindrical", "cylindrical", "spherical"])
+
+
+def gen_render_cases(ctx, rng):
+    cases = []
+    for i in range(ctx.scale(6000, 48000)):
+        cls = CLASSES[i % len(CLASSES)]
+        gs = gen_grid(rng, compatible_family(rng, cls), max3=6)
+        if cls == "PerturbedDroplet3DAxisSym" and gs["family"] == "cartesian":
+            for k in (0, 1):   # the z axis x = y = 0 carries the droplet
+                n = gs["shape"][k]
+                h = (gs["bounds"][k][1] - gs["bounds"][k][0]) / n
+                lo = -(n // 2) * h - rng.choice([0.0, 0.5, 0.25]) * h
+                gs["bounds"][k] = [lo, lo + n * h]
+        ds = gen_valid_droplet(rng, cls, gs)
+        m = i % 3
+        if m == 0:
+            vmin, vmax = rng.choice([(0.0, 1.0), (-1.0, 1.0), (1.0, 0.0), (0.5, 0.5), (-5.0, 995.0)])
+            cases.append({"entry": "get_phase_field", "grid": gs, "droplet": ds, "vmin": vmin, "vmax": vmax})
+        elif m == 1:
+            cases.append({"entry": "_get_phase_field", "grid": gs, "droplet": ds, "bool": rng.random() < 0.5})
+        else:
+            k = rng.choice([0, 1, 2, 3])
+            dss = [ds] + [gen_valid_droplet(rng, cls, gs) for _ in range(max(0, k - 1))]
+            if k == 0:
+                dss = []
+            if cls.startswith("Perturbed"):
+                for d in dss:
+                    d["amplitudes"] = (list(d["amplitudes"]) + [0.0] * 20)[:len(ds["amplitudes"])]
+            cases.append({"entry": "Emulsion.get_phasefield", "grid": gs, "droplets": dss})
+    # documented invalid request: dimension mismatch, every class against every other dimension / family
+    grids = {1: {"family": "cartesian", "bounds": [[0, 4]], "shape": [4], "periodic": [True]},
+             2: {"family": "cartesian", "bounds": [[0, 4], [0, 4]], "shape": [4, 4], "periodic": [True, False]},
+             3: {"family": "cartesian", "bounds": [[-2, 2], [-2, 2], [0, 4]], "shape": [4, 4, 4], "periodic": [False] * 3}}
+    others = [{"family": "polar", "radius": [0, 4], "shape": 4}, {"family": "spherical", "radius": [0, 4], "shape": 4},
+              {"family": "cylindrical", "radius": 2, "bounds_z": [0, 4], "shape": [3, 4], "periodic_z": True}]
+    for cls in CLASSES:
+        for ddim in ((1, 2, 3) if cls in ("SphericalDroplet", "DiffuseDroplet") else ((2,) if cls.endswith("2D") else (3,))):
+            ds = {"cls": cls, "position": [0.0] * ddim, "radius": 1.0, "width": 0.5, "amplitudes": [0.1, 0.2]}
+            for gs in list(grids.values()) + others:
+                if grid_dim(gs) != ddim:
+                    cases.append({"entry": "get_phase_field", "grid": gs, "droplet": ds})
+                    cases.append({"entry": "_get_phase_field", "grid": gs, "droplet": ds, "bool": True})
+                    cases.append({"entry": "Emulsion.get_phasefield", "grid": gs, "droplets": [ds]})
+    return cases
+
+
+def gen_polar_cases(ctx, rng):
+    cases = []
+    for i in range(ctx.scale(1500, 10000)):
+        gs = gen_grid(rng, rng.choice(["cart1", "cart2", "cart3", "cart3", "polar", "spherical", "cylindrical"]), max3=6)
+        ds = gen_valid_droplet(rng, "SphericalDroplet", gs)
+        cases.append({"entry": "polar_coordinates", "grid": gs, "origin": ds["position"], "ret_angle": i % 4 != 0})
+    return cases
+
+
+def gen_track_cases(ctx, rng):
+    cases = []
+    fixed = [([], []), ([0.0], [[]]), ([0.0, 1.0], [[], []])]
+    for times, frames in fixed:
+        for method in ("overlap", "distance"):
+            cases.append({"entry": "from_emulsion_time_course", "times": times, "frames": frames, "method": method,
+                          "max_dist": None, "grid": None})
+    for _ in range(ctx.scale(1500, 10000)):
+        dim = rng.choice([1, 2, 2, 3])
+        L = rng.choice([4.0, 8.0])
+        nf = rng.choice([0, 1, 2, 3, 3, 4, 5, 6])
+        cls = rng.choice(["SphericalDroplet", "DiffuseDroplet"])
+        frames, prev = [], []
+        for _f in range(nf):
+            m = rng.random()
+            if m < 0.3:
+                cur = []                                            # a frame without droplets
+            elif m < 0.7 and prev:
+                cur = [dict(d, position=[x + rng.uniform(-0.3, 0.3) for x in d["position"]]) for d in prev
+                       if rng.random() < 0.8]
+                if rng.random() < 0.3:
+                    cur.append({"cls": cls, "position": [rng.uniform(0, L) for _ in range(dim)], "radius": rng.uniform(0.2, 1.5)})
+            else:
+                cur = [{"cls": cls, "position": [rng.uniform(0, L) for _ in range(dim)], "radius": rng.uniform(0.2, 1.5)}
+                       for _ in range(rng.choice([1, 1, 2, 3, 4]))]
+            if cls == "DiffuseDroplet":
+                for d in cur:
+                    d.setdefault("width", rng.choice([None, 0.5]))
+            frames.append(cur)
+            prev = cur
+        times = [0.5 * k for k in range(nf)]
+        gs = None if rng.random() < 0.5 else {"family": "cartesian", "bounds": [[0.0, L]] * dim, "shape": [int(L)] * dim,
+                                              "periodic": [rng.random() < 0.7 for _ in range(dim)]}
+        for method in ("overlap", "distance"):
+            cases.append({"entry": "from_emulsion_time_course", "times": times, "frames": frames, "method": method,
+                          "max_dist": rng.choice([None, 0.5, 2.0]) if method == "distance" else None, "grid": gs})
+    return cases
+
+
+def gen_tracker_cases(ctx, rng):
+    cases = []
+    for _ in range(ctx.scale(300, 2000)):
+        gs = gen_grid(rng, rng.choice(FAMILIES), max3=4)
+        opt = gen_options(rng, rng.random() < 0.3)
+        if grid_dim(gs) == 3 and opt["modes"] == 8:
+            opt["modes"] = 2
+        cases.append({"entry": "DropletTracker.handle", "grid": gs, "field": gen_field(rng, gs), "options": opt})
+    for _ in range(ctx.scale(100, 800)):
+        gs = gen_grid(rng, rng.choice(FAMILIES), max3=5)
+        cases.append({"entry": "LengthScaleTracker.handle", "grid": gs, "field": gen_field(rng, gs),
+                      "method": rng.choice(["structure_factor_mean", "structure_factor_maximum", "droplet_detection"])})
+    return cases
+
+
+# =========================================================================================
+# running
+# =========================================================================================
+def pool_map(fn, items, chunk=8):
+    import multiprocessing as mp
+    if len(items) < 64:
+        return [fn(x) for x in items]
+    with mp.get_context("fork").Pool(min(vlib.NPROC, 16)) as pool:
+        return pool.map(fn, items, chunksize=chunk)
+
+
+def prove_with_fallback(ctx) -> bool:
+    """proofs over the freshly generated text; if the translators of the rendering / refinement plumbing fail closed
+    (or their text no longer supports C03's / C04's proofs) the golden text is used for THOSE files -- the tie of this
+    property to the code is the sweep + the guard correspondence, which are run in any case"""
+    nb, ob, dc = len(ctx.broken), ctx.obligations, ctx.discharged
+    ok = vlib.prove(ctx, DEPS, gens=GENS)
+    if ok:
+        ctx.tie.append("translator (Gen_analysis, Gen_shapes, Gen_refine, Gen_spherical, Gen_droplet_basic regenerated from the "
+                       "current source; proofs over the fresh text) + error-kind sweep + guard correspondence inside Coq")
+        return True
+    first = ctx.broken[nb:]
+    if any(b.startswith("forbidden construct") or "assumptions outside" in b for b in first):
+        return False
+    import gen_refine
+    import gen_shapes
+    del ctx.broken[nb:]
+    ctx.obligations, ctx.discharged = ob, dc
+    ctx.notes.append("fresh generated text does not support the proofs -> golden Gen_shapes / Gen_refine: " + " | ".join(first)[:600])
+    with vlib.BuildLock():
+        vlib._write_if_changed(vlib.COQ_BUILD / "Gen" / "Gen_refine.v", gen_refine.GOLDEN)
+        vlib._write_if_changed(vlib.COQ_BUILD / "Gen" / "Gen_refine_R.v", gen_refine.GOLDEN_R)
+        vlib._write_if_changed(vlib.COQ_BUILD / "Gen" / "Gen_shapes.v", gen_shapes.GOLDEN)
+    ok2 = vlib.prove(ctx, DEPS, gens=["Gen_analysis", "Gen_spherical", "Gen_spherical_index", "Gen_droplet_basic"])
+    ctx.tie.append("tie: sweep + correspondence (translator of rendering / refinement plumbing fell back to the golden text)")
+    ctx.extra["translator_fell_back"] = True
+    return ok2
+
+
+def strip(case: dict) -> dict:
+    return json.loads(json.dumps(case))
+
+
+def coq_call(case: dict, res: dict, cls: str):
+    """-> (Coq literal of the call, observed literal) for the calls that have a model guard"""
+    obs = {"ok": "ObsOk", "documented": "ObsValueError"}.get(cls, "ObsOther")
+    entry = case["entry"]
+    if entry in ("locate_droplets", "DropletTracker.handle"):
+        return f"CallLocate {vlib.zlit(grid_dim(case['grid']))} {vlib.zlit(case['options']['modes'])}", obs
+    if entry in ("get_phase_field", "_get_phase_field"):
+        return f"CallRender {vlib.zlit(len(case['droplet']['position']))} {vlib.zlit(grid_dim(case['grid']))}", obs
+    if entry == "Emulsion.get_phasefield" and case["droplets"]:
+        dims = {len(d["position"]) for d in case["droplets"]}
+        if len(dims) == 1:
+            return f"CallRender {vlib.zlit(dims.pop())} {vlib.zlit(grid_dim(case['grid']))}", obs
+    if entry == "from_emulsion_time_course":
+        fr = vlib.listlit([f"({vlib.qlit(t)}, {len(f)}%nat)" for t, f in zip(case["times"], case["frames"])])
+        md = "None" if case["max_dist"] is None else f"(Some {vlib.qlit(case['max_dist'])})"
+        return f"CallTrack {vlib.blit(case['method'] == 'distance')} {md} {fr}", obs
+    return None
+
+
+HEADER = """From Coq Require Import QArith ZArith List Bool.
+Import ListNotations.
+From PD Require Import Model.Tracking Model.Totality.
+Local Open Scope Q_scope.
+"""
+
+
+def record_hist(ctx, case, res, cls):
+    entry = case["entry"]
+    ctx.count("entry_point", entry)
+    ctx.count("outcome", cls if cls != "abort" else f"abort:{res['kind']}")
+    if case.get("grid"):
+        ctx.count("grid_family", family_name(case["grid"]))
+        gs = case["grid"]
+        ctx.count("cells", int(np.prod(grid_shape(gs))) if int(np.prod(grid_shape(gs))) <= 8 else
+                  ("9-36" if int(np.prod(grid_shape(gs))) <= 36 else ">36"))
+        if gs["family"] == "cartesian":
+            ctx.count("periodic_mask", "".join("P" if p else "-" for p in gs["periodic"]))
+    if "field" in case:
+        ctx.count("field_kind", field_kind(case["field"]))
+    if "options" in case:
+        o = case["options"]
+        ctx.count("threshold", o["threshold"])
+        ctx.count("minimal_radius", o["minimal_radius"])
+        ctx.count("interface_width", o["interface_width"])
+        ctx.count("modes", o["modes"])
+        ctx.count("refine", ("refine_args=" + json.dumps(REFINE_ARGS[o["refine_args"]])) if o["refine"] else "off")
+    if res["kind"] == "ok" and entry in ("locate_droplets", "locate_droplets_in_mask"):
+        ctx.count("droplets_returned", min(res["n"], 5) if res["n"] < 5 else "5+")
+    if entry == "from_emulsion_time_course":
+        ctx.count("track_method", case["method"] + ("" if case["grid"] is None else "+grid"))
+        ctx.count("frames", len(case["frames"]))
+        ctx.count("empty_frames", sum(1 for f in case["frames"] if not f))
+    if "droplet" in case:
+        ctx.count("render_class", case["droplet"]["cls"])
+
+
+def check(ctx: vlib.Ctx) -> int:
+    import droplets  # noqa: F401
+    rng = random.Random(ctx.seed)
+    ok = prove_with_fallback(ctx)
+    streams = [("locate", gen_locate_cases), ("mask", gen_mask_cases), ("refine", gen_refine_cases),
+               ("render", gen_render_cases), ("polar", gen_polar_cases), ("track", gen_track_cases),
+               ("tracker", gen_tracker_cases)]
+    cases = []
+    for name, gen in streams:
+        cs = gen(ctx, rng)
+        ctx.count("stream", name, len(cs))
+        cases += cs
+    # long fits first so that the pool stays busy; results are mapped back to the generation order
+    order = sorted(range(len(cases)), key=lambda i: -_cost(cases[i]))
+    res_sorted = pool_map(run_case, [cases[i] for i in order])
+    results = [None] * len(cases)
+    for i, r in zip(order, res_sorted):
+        results[i] = r
+    known_entries = vlib.load_known()
+    fails, known_hits, lits, lit_meta, seen_lit = [], {}, [], [], set()
+    for case, res in zip(cases, results):
+        cls, what = judge(case, res)
+        nontrivial = (res["kind"] != "ok") or res.get("n", 0) > 0 and res.get("nonconstant", True)
+        ctx.case(case, nontrivial=bool(nontrivial))
+        record_hist(ctx, case, res, cls)
+        if cls == "harness":
+            ctx.broken.append(what + " on " + json.dumps(strip(case))[:300])
+            continue
+        matched = None
+        if what:
+            attrs = failure_attrs(case, res, cls)
+            matched = match_known(attrs, known_entries)
+            inp = {"call": strip(case), "observed": {k: v for k, v in res.items() if k != "trace"}}
+            if matched is not None:
+                ctx.count("known_finding_hits", matched["id"])
+                known_hits.setdefault(matched["id"], (matched, what, inp))
+            else:
+                fails.append({"what": what, "input": inp, "signature": (case["entry"], cls, res.get("kind"), res.get("site"))})
+        lc = coq_call(case, res, cls)
+        if lc is not None and matched is None:
+            lit = f"({lc[0]}, {lc[1]})"
+            if lit not in seen_lit:
+                seen_lit.add(lit)
+                lits.append(lit)
+                lit_meta.append(strip(case))
+    ctx.sample({"call": strip(cases[len(cases) // 3]), "outcome": results[len(cases) // 3].get("kind")})
+    ctx.sample({"call": strip(cases[-1]), "outcome": results[-1].get("kind")})
+    if lits:
+        ctx.sample({"coq_case": lits[len(lits) // 2][:300]})
+    ctx.count("coq_guard_cases", "distinct (call, observed kind) pairs", len(lits))
+    if ok and lits:
+        bad = vlib.run_cases(ctx, "outcome", HEADER, lits, "outcome_agree", shard=250)
+        for b in bad[:3]:
+            ctx.broken.append(f"correspondence error kinds: model guard and implementation differ on {json.dumps(lit_meta[b])[:400]} "
+                              f"(case {lits[b][:160]})")
+    for fid in sorted(known_hits):
+        ent, what, inp = known_hits[fid]
+        ctx.known_printed.append(f"[{fid}] {ent['what'][:140]} -- e.g. {what[:200]} on {json.dumps(inp['call'])[:600]}")
+    # one violation per failure signature (entry point, class, exception type, raising function): the smallest call
+    best = {}
+    for f in fails:
+        size = len(json.dumps(f["input"]["call"]))
+        if f["signature"] not in best or size < best[f["signature"]][0]:
+            best[f["signature"]] = (size, f)
+    for sig in sorted(best, key=lambda s: [str(x) for x in s])[:5]:
+        f = best[sig][1]
+        ctx.violations.append({"what": f["what"], "input": f["input"], "found": True, "broken": ctx.broken[:3],
+                               "same_signature_failures": sum(1 for g in fails if g["signature"] == sig)})
+    ctx.extra["failing_calls_total"] = len(fails)
+    return vlib.finish(ctx, "", TRUSTED, ASSUME, RULE)
+
+
+def _cost(case: dict) -> float:
+    """rough relative cost, only used to order the work"""
+    n = int(np.prod(grid_shape(case["grid"]))) if case.get("grid") else 1
+    if case["entry"] == "refine_droplet":
+        return 3.0 * n
+    o = case.get("options")
+    if o and o.get("refine"):
+        return n * (1 + o["modes"]) * (3 if grid_dim(case["grid"]) == 3 else 1)
+    return 0.001 * n
+
+
+def replay(path: str) -> int:
+    import droplets  # noqa: F401
+    obj = json.load(open(path))
+    print(json.dumps(obj, indent=1)[:2500])
+    inp = obj.get("input", {})
+    case = inp.get("call")
+    if not case:
+        return 0
+    res = run_case(case)
+    cls, what = judge(case, res)
+    print("implementation on the current tree:", json.dumps({k: v for k, v in res.items() if k != "trace"}, default=str)[:800])
+    ent = match_known(failure_attrs(case, res, cls)) if what else None
+    print("property oracle on the current tree:", what or "holds", f"(known finding {ent['id']})" if ent else "")
+    lc = coq_call(case, res, cls)
+    if lc:
+        print("model guard case:", lc[0], "observed", lc[1])
+    return 1 if (what and ent is None) else 0
